@@ -84,6 +84,9 @@ func (s *Struct) Assign(gen Generator, ctx *MethodContext, assignTo *AssignTo, s
 				return nil, err.Lift(lift...)
 			}
 			if shouldCheckAgainstZero(ctx, nextSource, targetFieldType, assignTo.Update, false) {
+				if err := requireComparable(nextSource); err != nil {
+					return nil, err.Lift(lift...)
+				}
 				stmt = append(stmt, jen.If(nextID.Code.Clone().Op("!=").Add(xtype.ZeroValue(nextSource.T))).Block(fieldStmt...))
 			} else {
 				stmt = append(stmt, fieldStmt...)
@@ -126,6 +129,9 @@ func (s *Struct) Assign(gen Generator, ctx *MethodContext, assignTo *AssignTo, s
 			callStmt = append(callStmt, assignTo.Stmt.Clone().Dot(targetField.Name()).Op("=").Add(callReturnID.Code))
 
 			if functionCallSourceType != nil && shouldCheckAgainstZero(ctx, functionCallSourceType, targetFieldType, assignTo.Update, true) {
+				if err := requireComparable(functionCallSourceType); err != nil {
+					return nil, err.Lift(sourceLift...)
+				}
 				stmt = append(stmt, jen.If(functionCallSourceID.Code.Clone().Op("!=").Add(xtype.ZeroValue(functionCallSourceType.T))).Block(callStmt...))
 			} else {
 				stmt = append(stmt, callStmt...)
@@ -145,6 +151,15 @@ func (s *Struct) Assign(gen Generator, ctx *MethodContext, assignTo *AssignTo, s
 	}
 
 	return stmt, nil
+}
+
+// requireComparable returns an error if values of the type cannot be compared
+// against their zero value with != in the generated code.
+func requireComparable(s *xtype.Type) *Error {
+	if s.Struct && !types.Comparable(s.T) {
+		return NewError(fmt.Sprintf("The zero value check of update:ignoreZeroValueField cannot be generated for\n    %s\nbecause the struct is not comparable (it contains a slice, map or func).\n\nDisable update:ignoreZeroValueField:struct or ignore the field.", s.String))
+	}
+	return nil
 }
 
 func shouldCheckAgainstZero(ctx *MethodContext, s, t *xtype.Type, isUpdate, call bool) bool {
